@@ -217,9 +217,11 @@ def rand_pair(rng, nmax=4, overlap=True):
         return A, B, alpha
     elif c < 0.66:
         A, B = correlated_pair(rng)
-    elif c < 0.72:
+    elif c < 0.71:
         return (*combo_pair(rng), ALPHA)
     elif c < 0.76:
+        return (*leafset_pair(rng), ALPHA)
+    elif c < 0.82:
         # leaf symbols present in one operand only
         alpha2 = pick_alpha(rng)
         B = rand_ta(rng, alpha2, nmax=nmax, dense=rng.random() < 0.6)
@@ -265,6 +267,50 @@ def combo_pair(rng):
     if rng.random() < 0.7:
         st = B.states()
         B = B.renamed(dict(zip(st, rng.sample(range(0, 12), len(st)))))
+    return A, B
+
+
+def leafset_pair(rng):
+    """A: states whose leaf languages are nested / overlapping SETS of leaf symbols, each wrapped by one unary (or binary) symbol
+    into a final state.  B: one state per leaf symbol (for a subset of the symbols), wrapped the same way – so a state of A
+    is covered only by a UNION of states of B, several states of A are comparable by simulation, and the cached answer for
+    one of them must not be reused for a bigger one."""
+    leaves = [0, 1, 2]
+    wrap, rk = rng.choice([(3, 1), (7, 1), (4, 2)])
+    m = rng.randint(2, 3)
+    sets = []
+    base = rng.sample(leaves, rng.randint(1, 2))
+    sets.append(set(base))
+    for _ in range(m - 1):
+        c = rng.random()
+        if c < 0.6:
+            sets.append(set(sets[-1]) | set(rng.sample(leaves, 1)))        # a superset (simulates the previous state)
+        else:
+            sets.append(set(rng.sample(leaves, rng.randint(1, 3))))
+    top = m
+    rulesA = []
+    for i, S in enumerate(sets):
+        rulesA += [(a, (), i) for a in sorted(S)]
+        rulesA.append((wrap, tuple([i] * rk), top))
+    A = TA(rulesA, [top])
+    U = [a for a in leaves if rng.random() < 0.75] or [rng.choice(leaves)]
+    rulesB = []
+    for j, a in enumerate(U):
+        rulesB.append((a, (), j))
+    topB = len(U)
+    import itertools
+    for comb in itertools.product(range(len(U)), repeat=rk):
+        if rk == 1 or rng.random() < 0.85:
+            rulesB.append((wrap, tuple(comb), topB))
+    B = TA(rulesB, [topB])
+    rng.shuffle(A.rules)
+    rng.shuffle(B.rules)
+    if rng.random() < 0.7:
+        st = A.states()
+        A = A.renamed(dict(zip(st, rng.sample(range(0, 10), len(st)))))
+    if rng.random() < 0.7:
+        st = B.states()
+        B = B.renamed(dict(zip(st, rng.sample(range(0, 10), len(st)))))
     return A, B
 
 
@@ -871,6 +917,12 @@ def g_tah_hist(rng):
             steps.append(f"final!{i}!{rng.randrange(0, 6)}")
         elif c < 0.64:
             steps.append(f"erasefinal!{i}")
+        elif c < 0.655:
+            # text loaded into an existing (possibly sharing) automaton; distinct rules only, ranked symbols
+            L = rand_ta(rng, nmax=3, dense=True)
+            L = TA(list(dict.fromkeys(L.rules)), sorted(set(L.finals)))
+            if L.rules:
+                steps.append(f"loadinto!{i}!{L.tok()}")
         elif c < 0.69:
             steps.append(f"clear!{i}")
         elif c < 0.75 and len(live) > 1:
